@@ -221,7 +221,7 @@ async fn run_script(s: Script) -> (Vec<Ev>, Vec<Ev>) {
 		}
 	}
 	// quiescence: nothing new from the source for a while, then one more window for the worker
-	let quiet = Duration::from_millis(if s.watcher == "poll" { 500 } else { 350 });
+	let quiet = Duration::from_millis(if s.watcher == "poll" { 700 } else { 500 });
 	let hard = Instant::now() + Duration::from_secs(8);
 	let mut last = (made.lock().unwrap().len(), Instant::now());
 	while Instant::now() < hard {
